@@ -275,7 +275,11 @@ class Tree:
                 out.append(dict(bb=b["i"], kind="bool", cond=cond, t_edge=t_edge, f_edge=f_edge, raw=oo))
                 # a boolean decided in several places and tested once (`let dup = match mode { A => x.contains(k), B => y.contains(k) }; if dup {..}`):
                 # on the paths that come through one alternative the test *is* the test of that alternative
-                if isinstance(oo, tuple) and oo[0] == "phi" and not os.environ.get("VERIF_DEV_NO_MERGEDCOND"):
+                def _is_test(a_):
+                    while isinstance(a_, tuple) and a_ and a_[0] == "un" and a_[1] == "Not": a_ = a_[2]
+                    return isinstance(a_, tuple) and bool(a_) and a_[0] == "call"
+                # (only when *every* alternative is itself a test: `a && b` lowers to phi(b, false) - there the false edge does not establish !b)
+                if isinstance(oo, tuple) and oo[0] == "phi" and all(_is_test(a_) for a_ in oo[2]) and not os.environ.get("VERIF_DEV_NO_MERGEDCOND"):
                     for alt in oo[2]:
                         an, aneg = alt, neg
                         while isinstance(an, tuple) and an and an[0] == "un" and an[1] == "Not": aneg = not aneg; an = an[2]
